@@ -31,6 +31,7 @@ pub fn basic_ops() -> Vec<Op> {
         Input(0, 4, 3, s("=nm*2")),
         SetLink(0, 1, 4, s("https://example.com/x"), None),
         AddCf(0, s("A1:A3"), s("A1>3")),
+        AddCfFill(0, s("A1:B2"), s("A1>1"), s("#FFFF00")),
         Style(0, 1, 7, 1_048_576, 1, s("fill.color"), s("#00FF00")),
         Style(0, 5, 1, 1, 16_384, s("font.b"), s("true")),
         ColsHidden(0, 8, 8, true),
@@ -170,6 +171,7 @@ pub fn alphabet_full() -> Vec<Op> {
         Input(0, 5, 5, s("1e3")),
         Input(0, 3, 1, s("1,000.5")),
         Input(0, 1, 3, s("=1/0")),
+        Input(0, 5, 4, s("=SUM(A1:A3")),
         ArrayFormula(0, 4, 1, 1, 2, s("=SUM(A1:A2)")),
         ClearContents(0, 1, 5, 1, 1),
         ClearContents(0, 1, 3, 40, 1),
@@ -231,6 +233,7 @@ pub fn alphabet_full() -> Vec<Op> {
         RenameSheet(0, s("Renamed")),
         RenameSheet(1, s("A B")),
         RenameSheet(0, s("Sheet2")),
+        RenameSheet(1, s("SHEET1 (1)")),
         MoveSheet(0, 1),
         MoveSheet(1, 0),
         HideSheet(1),
@@ -260,6 +263,8 @@ pub fn alphabet_full() -> Vec<Op> {
         AddCf(1, s("A1:A2"), s("A1>Sheet1!$A$1")),
         UpdateCf(0, 0, s("A1:A4"), s("A1>5")),
         DeleteCf(0, 0),
+        DeleteCf(0, 1),
+        AddCfFill(0, s("A2:A4"), s("A2>2"), s("#00FFFF")),
         RaiseCf(0, 0),
         LowerCf(0, 0),
         RaiseCf(0, 1),
